@@ -244,7 +244,8 @@ def convenience_classes(chk, rng):
             rod = ea.CosseratRod.straight_rod(n, np.array([0.1, 0.2, 0.3]), np.array([0.0, 0.6, 0.8]), np.array([1.0, 0.0, 0.0]), 1.0, 0.05,
                                               density=1e3, youngs_modulus=1e6, shear_modulus=1e6 / 1.5)
             rod.radius[...] = rng.random(n) + 0.01
-            rio = spu.CosseratRodIO(cosserat_rod=rod, dim=dim)
+            # the IO object's declared precision does not change what is stored: PyElastica arrays are float64 whatever the flow precision
+            rio = spu.CosseratRodIO(cosserat_rod=rod, dim=dim, **({"real_dtype": np.float32} if n == 3 else {}))
             # the rod moves and changes radius after the IO object was built: save must write the CURRENT element positions
             rod.position_collection[...] += rng.normal(size=rod.position_collection.shape)
             rod.radius[...] = rng.random(n) + 0.01
